@@ -6,9 +6,7 @@ import (
 	"io"
 	"net"
 	"net/http"
-	"net/http/httptest"
 	"sync"
-	"time"
 )
 
 // recServer is a scripted MCP server (Streamable or legacy SSE) written without the library. It records
@@ -17,7 +15,9 @@ import (
 type recServer struct {
 	legacy     bool
 	alwaysSess bool // Streamable: every initialize answer carries Mcp-Session-Id (keeps the client's GET attempt enabled)
-	ts         *httptest.Server
+	srv        *http.Server
+	base       string // http://127.0.0.1:port
+	conns      map[net.Conn]struct{}
 
 	mu       sync.Mutex
 	mode     string
@@ -58,18 +58,46 @@ func (g *gateListener) Accept() (net.Conn, error) {
 }
 
 func newRecServer(legacy, alwaysSess bool) *recServer {
-	s := &recServer{legacy: legacy, alwaysSess: alwaysSess, mode: mHealthy, sessions: map[string]*legacySess{}}
-	s.ts = httptest.NewUnstartedServer(http.HandlerFunc(s.serve))
-	s.ts.Listener = &gateListener{Listener: s.ts.Listener, s: s}
-	s.ts.Start()
+	s := &recServer{legacy: legacy, alwaysSess: alwaysSess, mode: mHealthy, sessions: map[string]*legacySess{}, conns: map[net.Conn]struct{}{}}
+	ln, err := net.Listen("tcp", "127.0.0.1:0")
+	if err != nil {
+		panic("recServer: " + err.Error())
+	}
+	s.base = "http://" + ln.Addr().String()
+	// plain net/http server: httptest.Server.Close would also close the idle connections of
+	// http.DefaultTransport, which every library client of this process shares
+	s.srv = &http.Server{Handler: http.HandlerFunc(s.serve), ConnState: func(c net.Conn, st http.ConnState) {
+		s.mu.Lock()
+		switch st {
+		case http.StateNew:
+			s.conns[c] = struct{}{}
+		case http.StateClosed, http.StateHijacked:
+			delete(s.conns, c)
+		}
+		s.mu.Unlock()
+	}}
+	go func() { _ = s.srv.Serve(&gateListener{Listener: ln, s: s}) }()
 	return s
+}
+
+// cutConnections closes every connection the server currently holds.
+func (s *recServer) cutConnections() {
+	s.mu.Lock()
+	cs := make([]net.Conn, 0, len(s.conns))
+	for c := range s.conns {
+		cs = append(cs, c)
+	}
+	s.mu.Unlock()
+	for _, c := range cs {
+		_ = c.Close()
+	}
 }
 
 func (s *recServer) url() string {
 	if s.legacy {
-		return s.ts.URL + "/sse"
+		return s.base + "/sse"
 	}
-	return s.ts.URL + "/mcp"
+	return s.base + "/mcp"
 }
 
 func (s *recServer) isDown() bool {
@@ -122,7 +150,7 @@ func (s *recServer) setMode(mode string, variant int) {
 		for _, ls := range kills {
 			close(ls.kill)
 		}
-		s.ts.CloseClientConnections()
+		s.cutConnections()
 	}
 }
 
@@ -133,13 +161,8 @@ func (s *recServer) close() {
 		delete(s.sessions, id)
 	}
 	s.mu.Unlock()
-	s.ts.CloseClientConnections()
-	done := make(chan struct{})
-	go func() { s.ts.Close(); close(done) }()
-	select {
-	case <-done:
-	case <-time.After(5 * time.Second):
-	}
+	_ = s.srv.Close() // closes the listener and every connection; does not wait for handlers
+	s.cutConnections()
 }
 
 type rpcHead struct {
